@@ -53,7 +53,9 @@ def run(chk):
         scopes.append((S.SUB[k], 3 if quick else 4))
     res = S.explore(chk, 'strings', scopes, invariants=INV, timeout=3000, runs='B', sources=deep([6, 14] if quick else [6, 14, 40]))
     S.model_must_hold(chk, res)
-    bad = S.replay(chk, res.records)
+    sim = S.explore(chk, 'simulate', [(S.ST + S.SC + S.SC_EXTRA, 22, 6)], invariants=INV, timeout=3000, runs='B', simulate=60 if quick else 4000, depth=6000)
+    S.model_must_hold(chk, sim)
+    bad = S.replay(chk, res.records + sim.records)
     for r in res.records[:6]:
         chk.sample({'source': from_atoms(r['i']), 'strict': r['A']['o'], 'tolerant': r['B']['o']})
     # material TLC did not generate
